@@ -4,6 +4,7 @@ import (
 	"context"
 	"errors"
 	"fmt"
+	"math"
 	"runtime"
 	"sort"
 	"strings"
@@ -31,6 +32,7 @@ type Fault struct {
 type StoreOpts struct {
 	PermuteSeed  uint64  `json:"permute_seed,omitempty"`
 	PruneToHints bool    `json:"prune_to_hints,omitempty"`
+	NoTrim       bool    `json:"no_trim,omitempty"` // serve every stored sample, also outside the querier's [mint, maxt]
 	Faults       []Fault `json:"faults,omitempty"`
 	PerturbSeed  uint64  `json:"perturb_seed,omitempty"`
 	Pure         bool    `json:"pure,omitempty"` // race-pure: no shared mutable monitor state
@@ -343,6 +345,9 @@ func (q *mQuerier) Select(sortSeries bool, hints *storage.SelectHints, matchers 
 	st := q.st
 	rec := SelectRec{QMint: q.mint, QMaxt: q.maxt, Sort: sortSeries}
 	lo, hi := q.mint, q.maxt
+	if st.opts.NoTrim {
+		lo, hi = math.MinInt64, math.MaxInt64
+	}
 	if hints != nil {
 		rec.Start, rec.End, rec.Step, rec.Func, rec.By, rec.Range = hints.Start, hints.End, hints.Step, hints.Func, hints.By, hints.Range
 		rec.Grouping = append([]string(nil), hints.Grouping...)
